@@ -48,6 +48,7 @@ Notation write_reader_i := (write_reader_i fresh_ent fresh_ino umask).
 Notation perm_new := (perm_new umask).
 Notation multi_image_i := (multi_image_i fresh_ent fresh_ino umask).
 Notation import_images_i := (import_images_i fresh_ent fresh_ino umask).
+Notation incr_api_i := (incr_api_i fresh_ent fresh_ino umask).
 
 (* ---------- the body ---------- *)
 Lemma run_body_spec fd ofd b : forall s f,
@@ -377,6 +378,46 @@ Proof.
     + eapply others_unchanged; eauto. unfold api_dest. cbn [opt_sp_eqb].
       replace (sp_eqb o o) with true; [reflexivity|]. unfold sp_eqb. rewrite Pos.eqb_refl, N.eqb_refl. reflexivity.
     + eapply others_unchanged; eauto.
+Qed.
+
+(* ---------- incremental writing (incr = true) ---------- *)
+(* a distinctly spelled output: incr is ignored, the run IS the staged-output run *)
+Lemma incr_distinct_out_proof x o b s :
+  sp_eqb x o = false -> incr_api_i x (Some o) b s = api_i (Some x) (Some x) (Some o) b s.
+Proof. intros H. unfold Model.incr_api_i. rewrite H. reflexivity. Qed.
+
+(* hence the output is published and the distinctly named input is untouched *)
+Lemma incr_distinct_input_unchanged_proof x o b s0 s' i f :
+  wlog s0 = [] -> sp_ent x <> sp_ent o ->
+  incr_api_i x (Some o) b s0 = ROk tt s' ->
+  idir s0 !! sp_ent x = Some (DFile i) -> inos s0 !! i = Some f ->
+  (idir s' !! sp_ent x = Some (DFile i) /\ inos s' !! i = Some f) /\
+  exists md inew, idir s' !! sp_ent o = Some (DFile inew) /\ inos s' !! inew = Some (File (output_of b) md).
+Proof.
+  intros Hw0 Hne Hrun Hx Hi.
+  assert (Hneq : sp_eqb x o = false).
+  { destruct (sp_eqb x o) eqn:E; [|reflexivity]. apply sp_eqb_eq in E. subst o. exfalso. apply Hne. reflexivity. }
+  rewrite (incr_distinct_out_proof x o b s0 Hneq) in Hrun.
+  assert (Hd : api_dest (Some x) (Some o) = Some o) by (unfold api_dest; cbn [opt_sp_eqb]; rewrite Hneq; reflexivity).
+  split.
+  - eapply others_unchanged; eauto.
+  - destruct (success_publishes_proof _ _ _ _ _ _ Hrun) as (d' & md & inew & Hd' & _ & H1 & H2 & _).
+    rewrite Hd in Hd'. injection Hd' as <-. exists md, inew. split; assumption.
+Qed.
+
+(* outFile "" or the same string: the increment is appended to the input's own inode; names and modes stay *)
+Lemma incr_inplace_appends_proof x outF b s0 s' :
+  (outF = None \/ outF = Some x) ->
+  incr_api_i x outF b s0 = ROk tt s' ->
+  exists i f, resolve (idir s0) (sp_ent x) = Some i /\ inos s0 !! i = Some f /\
+    idir s' = idir s0 /\ inos s' = <[i := File (fdata f ++ output_of b) (fmode f)]> (inos s0).
+Proof.
+  intros Hout. unfold Model.incr_api_i.
+  replace (match outF with None => true | Some o => sp_eqb x o end) with true.
+  2: { destruct Hout as [->| ->]; [reflexivity|]. unfold sp_eqb. rewrite Pos.eqb_refl, N.eqb_refl. reflexivity. }
+  unfold open_rd. destruct (resolve (idir s0) (sp_ent x)) as [i|] eqn:Er; [|discriminate].
+  destruct (inos s0 !! i) as [f|] eqn:Ei; [|discriminate].
+  intros [= <-]. exists i, f. unfold write. rewrite Ei. cbn [idir inos]. repeat split; reflexivity.
 Qed.
 
 (* pdfcpu.WriteReader / WriteContext's file path (createStagedFile + finishStagedFile): on Ok the name is
